@@ -57,7 +57,14 @@ func Verif_C03_S2_ShutdownBranch() {
 	ctx := verifCtx{done: make(chan struct{})}
 	close(ctx.done)
 	keep := r.ps.ProcessBlockPut(ctx)
-	vnd.Assert(!keep, "ProcessBlockPut did not report shutdown")
+	if keep {
+		// the interval timer and the cancellation were both ready and select picked the timer:
+		// a regular commit, shutdown is honoured by a later iteration
+		vnd.Cover("timer-won-the-race")
+		vnd.Assert(verifMatchCommitSequence(r.src.events, false), "regular iteration did not run: sync, state write")
+		vnd.Assert(!bl.closedForWriting, "list closed for writing although the loop continues")
+		return
+	}
 	vnd.Assert(verifMatchCommitSequence(r.src.events, true), "shutdown did not run: sync, FINAL sync, state write")
 	vnd.Assert(bl.closedForWriting, "list not closed for writing after shutdown")
 	vnd.Assert(bl.synchronizedEpochs == len(bl.epochHashSeeds), "epochs left unsynchronised by the final synchronisation")
